@@ -691,13 +691,216 @@ func errResultIndex(fn *ssa.Function) int {
 	return -1
 }
 
-// isSuccessReturn: the error result is the nil constant.
+// isSuccessReturn: the error result may be nil at this return: it is the nil constant, or a value that is not
+// provably a non-nil error (`return err` after `if err != nil || !ok`, `return helper()`). For the second kind the
+// paths on which the value was tested non-nil are failing exits: failCut gives those edges.
 func isSuccessReturn(r *ssa.Return) bool {
 	i := errResultIndex(r.Parent())
 	if i < 0 {
 		return false
 	}
-	return isNilConst(retVal(r, i))
+	v := retVal(r, i)
+	if isNilConst(v) {
+		return true
+	}
+	if i < len(r.Results) {
+		// through the defer spill, but keeping the conversion to error (a converted concrete value is non-nil)
+		raw := r.Results[i]
+		for k := 0; k < 3; k++ {
+			u, ok := raw.(*ssa.UnOp)
+			if !ok || u.Op != token.MUL {
+				break
+			}
+			s := loadedValue(u)
+			if s == nil {
+				break
+			}
+			raw = s
+		}
+		if !errMayBeNil(raw, 0) {
+			return false
+		}
+	}
+	if ctxErrAfterDone(v) {
+		return false
+	}
+	// `if err != nil { return err }`: every path to the return has found the value non-nil
+	w, _ := (&Cut{Fn: r.Parent(), Target: func(in ssa.Instruction) bool { return in == ssa.Instruction(r) }, EdgeCut: failCut(r)}).Run(nil)
+	return w != ""
+}
+
+// errMayBeNil: false only when the error value is certainly non-nil.
+func errMayBeNil(v ssa.Value, depth int) bool {
+	if v == nil {
+		return true
+	}
+	if isNilConst(v) {
+		return true
+	}
+	switch x := v.(type) {
+	case *ssa.MakeInterface:
+		// a concrete value converted to error: non-nil interface (a nil pointer inside is still a non-nil error)
+		return false
+	case *ssa.ChangeInterface:
+		return errMayBeNil(x.X, depth)
+	case *ssa.ChangeType:
+		return errMayBeNil(x.X, depth)
+	case *ssa.UnOp:
+		if x.Op == token.MUL {
+			if _, isG := x.X.(*ssa.Global); isG {
+				return false // sentinel error variable
+			}
+			// a local cell: non-nil if every store into it is non-nil
+			if al, isAl := x.X.(*ssa.Alloc); isAl && depth < 3 {
+				n := 0
+				for _, r := range *al.Referrers() {
+					switch st := r.(type) {
+					case *ssa.Store:
+						if st.Addr == ssa.Value(al) {
+							n++
+							if errMayBeNil(st.Val, depth+1) {
+								return true
+							}
+						}
+					case *ssa.UnOp:
+					default:
+						return true // address escapes (closure, call)
+					}
+				}
+				return n == 0
+			}
+		}
+		return true
+	case *ssa.Phi:
+		if depth >= 3 {
+			return true
+		}
+		for _, e := range x.Edges {
+			if e != v && errMayBeNil(e, depth+1) {
+				return true
+			}
+		}
+		return false
+	case *ssa.Call:
+		return callMayReturnNilErr(x, 0, depth)
+	case *ssa.Extract:
+		if call, ok := x.Tuple.(*ssa.Call); ok {
+			return callMayReturnNilErr(call, x.Index, depth)
+		}
+	}
+	return true
+}
+
+// ctxErrAfterDone: v is ctx.Err() evaluated where <-ctx.Done() has been received (the context contract makes it
+// non-nil there): the call is dominated by the select case, or by the receive, on Done() of the same context.
+func ctxErrAfterDone(v ssa.Value) bool {
+	call, ok := v.(*ssa.Call)
+	if !ok || calleeKey(call) != "(context.Context).Err" {
+		return false
+	}
+	ctx := call.Call.Value
+	isDone := func(ch ssa.Value) bool {
+		d, ok := strip(ch).(*ssa.Call)
+		return ok && calleeKey(d) == "(context.Context).Done" && sameExpr(d.Call.Value, ctx, 0)
+	}
+	blk := call.Block()
+	for _, b := range call.Parent().Blocks {
+		// a plain receive that dominates the call
+		for _, in := range b.Instrs {
+			if u, ok := in.(*ssa.UnOp); ok && u.Op == token.ARROW && isDone(u.X) && (b.Dominates(blk) && (b != blk || instrIndex(in) < instrIndex(call))) {
+				return true
+			}
+		}
+		// the select case
+		i := ifOf(b)
+		if i == nil || len(b.Succs) != 2 || len(b.Succs[0].Preds) != 1 || !b.Succs[0].Dominates(blk) {
+			continue
+		}
+		bo, ok := i.Cond.(*ssa.BinOp)
+		if !ok || bo.Op != token.EQL {
+			continue
+		}
+		ex, ok := bo.X.(*ssa.Extract)
+		if !ok || ex.Index != 0 {
+			continue
+		}
+		sel, ok := ex.Tuple.(*ssa.Select)
+		k, isC := constInt(bo.Y)
+		if !ok || !isC || int(k) >= len(sel.States) {
+			continue
+		}
+		if st := sel.States[k]; st.Dir == types.RecvOnly && isDone(st.Chan) {
+			return true
+		}
+	}
+	return false
+}
+
+// sameExpr: two SSA values spelling the same pure expression (the same value, or loads of the same field of
+// the same base).
+func sameExpr(a, b ssa.Value, d int) bool {
+	a, b = strip(a), strip(b)
+	if a == b {
+		return true
+	}
+	if d > 4 {
+		return false
+	}
+	la, ok1 := a.(*ssa.UnOp)
+	lb, ok2 := b.(*ssa.UnOp)
+	if ok1 && ok2 && la.Op == token.MUL && lb.Op == token.MUL {
+		if la.X == lb.X {
+			return true
+		}
+		fa, ok3 := la.X.(*ssa.FieldAddr)
+		fb, ok4 := lb.X.(*ssa.FieldAddr)
+		return ok3 && ok4 && fa.Field == fb.Field && sameExpr(fa.X, fb.X, d+1)
+	}
+	return false
+}
+
+func callMayReturnNilErr(call *ssa.Call, idx int, depth int) bool {
+	switch calleeKey(call) {
+	case "fmt.Errorf", "errors.New":
+		return false
+	}
+	h := call.Call.StaticCallee()
+	if h == nil || h.Blocks == nil || depth >= 2 || h.Pkg == nil || !strings.HasPrefix(h.Pkg.Pkg.Path()+"/", Mod) {
+		return true
+	}
+	if h.Recover != nil {
+		return true
+	}
+	for _, ret := range returnsOf(h) {
+		if idx >= len(ret.Results) || errMayBeNil(ret.Results[idx], depth+1) {
+			return true
+		}
+	}
+	return true && len(returnsOf(h)) == 0
+}
+
+// failCut: the edges on which this return's error value has been found non-nil (a failing exit although
+// the value returned is not a constant).
+func failCut(ret ssa.Instruction) EdgePred {
+	r, ok := ret.(*ssa.Return)
+	if !ok {
+		return func(*ssa.BasicBlock, int) bool { return false }
+	}
+	i := errResultIndex(r.Parent())
+	if i < 0 || isNilConst(retVal(r, i)) {
+		return func(*ssa.BasicBlock, int) bool { return false }
+	}
+	v := strip(retVal(r, i))
+	same := func(x ssa.Value) bool {
+		if x == v {
+			return true
+		}
+		// two loads of the same cell
+		lx, ok1 := x.(*ssa.UnOp)
+		lv, ok2 := v.(*ssa.UnOp)
+		return ok1 && ok2 && lx.Op == token.MUL && lv.Op == token.MUL && lx.X == lv.X
+	}
+	return edgeNil(same, false)
 }
 
 func describeVal(v ssa.Value) string {
@@ -952,4 +1155,85 @@ func isParamCellLoad(c *Ctx, v ssa.Value, p *ssa.Parameter) bool {
 		}
 	}
 	return false
+}
+
+// sliceBase: the array or slice a slice expression is taken from (x for x[l:h]); the value itself otherwise.
+func sliceBase(v ssa.Value) ssa.Value {
+	v = strip(v)
+	for {
+		s, ok := v.(*ssa.Slice)
+		if !ok {
+			return v
+		}
+		v = strip(s.X)
+	}
+}
+
+// sameSlice: two slice expressions over the same base with the same (constant or absent) bounds.
+func sameSlice(a, b ssa.Value) bool {
+	a, b = strip(a), strip(b)
+	if a == b {
+		return true
+	}
+	sa, ok1 := a.(*ssa.Slice)
+	sb, ok2 := b.(*ssa.Slice)
+	if !ok1 || !ok2 || !sameExprAddr(sa.X, sb.X) {
+		return false
+	}
+	eq := func(x, y ssa.Value) bool {
+		if x == nil || y == nil {
+			return x == nil && y == nil
+		}
+		kx, okx := constInt(x)
+		ky, oky := constInt(y)
+		return (okx && oky && kx == ky) || x == y
+	}
+	return eq(sa.Low, sb.Low) && eq(sa.High, sb.High) && eq(sa.Max, sb.Max)
+}
+
+// sameExprAddr: like sameExpr for addresses (&x.f of the same x).
+func sameExprAddr(a, b ssa.Value) bool {
+	if a == b || sameExpr(a, b, 0) {
+		return true
+	}
+	fa, ok1 := a.(*ssa.FieldAddr)
+	fb, ok2 := b.(*ssa.FieldAddr)
+	return ok1 && ok2 && fa.Field == fb.Field && (fa.X == fb.X || sameExpr(fa.X, fb.X, 0))
+}
+
+// globalKey: "pkgpath.Name" of a package-level variable, module prefix removed.
+func globalKey(g *ssa.Global) string {
+	if g.Pkg == nil {
+		return g.Name()
+	}
+	return strings.TrimPrefix(g.Pkg.Pkg.Path(), Mod) + "." + g.Name()
+}
+
+// resolveVarAddr: an address seen inside a closure, as the captured cell of the enclosing function (or itself).
+func resolveVarAddr(c *Ctx, addr ssa.Value, fn *ssa.Function) ssa.Value {
+	fv, ok := addr.(*ssa.FreeVar)
+	if !ok {
+		return addr
+	}
+	p := c.Parent(fn)
+	if p == nil {
+		return addr
+	}
+	var cell ssa.Value
+	allInstrs(p, func(in ssa.Instruction) {
+		if mc, ok := in.(*ssa.MakeClosure); ok && mc.Fn == ssa.Value(fn) {
+			for i, q := range fn.FreeVars {
+				if q == fv && i < len(mc.Bindings) {
+					cell = mc.Bindings[i]
+				}
+			}
+		}
+	})
+	if cell == nil {
+		return addr
+	}
+	if _, again := cell.(*ssa.FreeVar); again {
+		return resolveVarAddr(c, cell, p)
+	}
+	return cell
 }
